@@ -184,6 +184,8 @@ def run_case(spec):
     with SignalSandbox():
         reactor = VReactor(spec["ties"])
         stage_log = []
+        fire_log = []        # (stage, True if its Deferred fired only after the reactor had stopped running)
+        waited = []          # stages that returned a Deferred due to fire later
         cls = AsynchronousDeferredRunTest if spec["variant"] == "plain" else AsynchronousDeferredRunTestForBrokenTwisted
         factory = cls.make_factory(reactor=reactor, timeout=spec["timeout"], suppress_twisted_logging=spec["suppress"],
                                    store_twisted_logs=spec["store"])
@@ -227,10 +229,14 @@ def run_case(spec):
                 outer = d
             if s["never"]:
                 return outer
+            def fire(how, what):
+                fire_log.append((name, not reactor.in_run))
+                how(what)
             if s["result"] == "ok":
-                reactor.callLater(s["delay"], d.callback, s.get("value"))
+                reactor.callLater(s["delay"], fire, d.callback, s.get("value"))
             else:
-                reactor.callLater(s["delay"], d.errback, exc())
+                reactor.callLater(s["delay"], fire, d.errback, exc())
+            waited.append(name)
             return outer
 
         class T(testtools.TestCase):
@@ -327,6 +333,14 @@ def run_case(spec):
         if timed_out and out is not None and out != "addError":
             vs.append(V("outcome", "timeout-elapsed-reported-as-%s" % out, "the timeout call fired (at %r) but the outcome is %s" % (
                 [tm for tm, c in reactor.fired if getattr(getattr(c, "func", None), "__name__", "") == "_timed_out"], out)))
+        # ---- a Deferred the chain was still waiting for when the reactor stopped (it fires during the clean-up
+        #      iterations, or never): the chain did not complete, whatever happens to that Deferred afterwards
+        late = [n for n in waited if (n, False) not in fire_log]
+        if late and out == "addSuccess":
+            vs.append(V("outcome", "success-with-an-unfinished-chain", "stage %r returned a Deferred that had not fired when the reactor stopped (fired afterwards: %r), yet the outcome is addSuccess" % (
+                late[0], (late[0], True) in fire_log)))
+        if late and reactor.interrupts_delivered and not timed_out and out is not None and "stop" not in names:
+            vs.append(V("interrupt", "no-stop", "the run was interrupted while stage %r was waiting, but the result was not asked to stop" % (late[0],)))
         # ---- cleanliness
         left = reactor.getDelayedCalls()
         if left:
@@ -482,8 +496,30 @@ def run_differential(spec):
     return Case(vs, nt, ["real-reactor", "clean" if not m["bad"] else "bad"], {"real": r[2], "virtual": v[2]})
 
 
+def interrupt_between_stages():
+    """Exhaustive: the interrupt arrives at the very instant one stage's Deferred fires, the next stage waits for
+    a Deferred due 0 or 1 later, every order among the calls due together.  (With a 0 delay the next stage's
+    Deferred is due at once but only in the reactor's next pass - or in the clean-up iterations after it stopped.)"""
+    def quiet(mode, delay):
+        return {"mode": mode, "delay": delay, "result": "ok", "value": None, "expect": False, "never": False,
+                "leave_call": None, "log_err": "no", "drop_failed": False}
+    names = ["setUp", "test", "tearDown", "cleanup0"]
+    for variant in ("plain", "broken"):
+        for k in range(3):
+            for first in (1, 2):
+                for nxt in (0, 1):
+                    for ties in ([0], [1], [0, 0], [1, 1], [0, 1], [1, 0]):
+                        stages = {n: quiet("sync", 0) for n in names}
+                        stages[names[k]] = quiet("deferred", first)
+                        stages[names[k + 1]] = quiet("deferred", nxt)
+                        yield {"setUp": stages["setUp"], "test": stages["test"], "tearDown": stages["tearDown"],
+                               "cleanups": [stages["cleanup0"]], "timeout": 20, "interrupt": first, "variant": variant,
+                               "suppress": False, "store": False, "ties": ties, "followup": "fresh-sync"}
+
+
 def subchecks(tier):
     q = tier == "quick"
     return [Sub("async_programs", run_case, CASE, 4000 if q else 100000),
+            Sub("interrupt_between_stages", run_case, enum=interrupt_between_stages, enum_complete=True),
             Sub("real_reactor_differential", run_differential, s_insensitive(), 60 if q else 1500, shrink=False,
                 note="timing-insensitive programs run on the virtual AND on Twisted's real global reactor; observations must agree")]
